@@ -14,6 +14,8 @@ theorem maxHash_one : maxHashForScaled 1 = 2^64 - 1 := by decide
 /-- The code as it was before the repair (truncating cast) does NOT round-trip: s = 93 reports 92.
     Replayed on the implementation by the correspondence run (`rt 93`). -/
 theorem roundtrip_trunc_cex :
-    toNatTrunc (fdiv (ofNat u64max) (ofNat (maxHashForScaled 93))) = 92 := by decide
+    scaledForMaxHashTrunc (maxHashForScaled 93) = 92 := by decide
+/-- the repaired code does at that point (the unbounded statement is `roundtrip`, below) -/
+theorem roundtrip_93 : scaledForMaxHash (maxHashForScaled 93) = 93 := by decide
 
 end Sourmash.C14
